@@ -6,8 +6,10 @@ import (
 	"bytes"
 	"errors"
 	"fmt"
+	"strings"
 	"sync"
 	"testing"
+	"time"
 
 	"filippo.io/edwards25519"
 	"pgregory.net/rapid"
@@ -379,6 +381,25 @@ func vpC12Classes(c *vpC12Case) (classes []string, distinctChallenges int, copie
 	return classes, len(seenG), len(seenH)
 }
 
+// vpC12Watchdog bounds one Response call (microseconds of arithmetic); it is
+// generous enough for a machine with every core busy.
+const vpC12Watchdog = 20 * time.Second
+
+func vpC12Brief(rs []vpC12Result) string {
+	var sb strings.Builder
+	for _, r := range rs {
+		switch {
+		case r.err == nil:
+			fmt.Fprintf(&sb, "c%d:ok ", r.req.challenge)
+		case errors.Is(r.err, ErrCosiNonceReuse):
+			fmt.Fprintf(&sb, "c%d:reuse ", r.req.challenge)
+		default:
+			fmt.Fprintf(&sb, "c%d:err ", r.req.challenge)
+		}
+	}
+	return sb.String()
+}
+
 // TestVP_C12_seq owns the order: the request list is executed one call after the
 // other in the drawn order (every call-granularity interleaving of the workers is
 // some such order), through the original handle and copies of it.
@@ -392,7 +413,17 @@ func TestVP_C12_seq(t *testing.T) {
 		h := vpC12Handles(cs.nonce)
 		results := make([]vpC12Result, 0, len(cs.reqs))
 		for i, r := range cs.reqs {
-			res := cs.do(h, r)
+			// every request returns: an answer, the reuse error, or another error. A
+			// request that never returns (a lock left behind by an earlier refusal)
+			// takes the identical-repeat guarantee away just as a wrong answer does.
+			done := make(chan vpC12Result, 1)
+			go func() { done <- cs.do(h, r) }()
+			var res vpC12Result
+			select {
+			case res = <-done:
+			case <-time.After(vpC12Watchdog):
+				t.Fatalf("request %d of %d (challenge %d through handle copy %d) did not return within %v; earlier results: %s", i, len(cs.reqs), r.challenge, r.handle, vpC12Watchdog, vpC12Brief(results))
+			}
 			if res.resp != nil && (i+int(res.resp[0]))%2 == 0 {
 				// the caller is done with the response it was handed and wipes its
 				// buffer; later answers for the same challenge must not be affected
@@ -445,7 +476,13 @@ func vpC12RunConcurrent(cs *vpC12Case) []vpC12Result {
 		}(w)
 	}
 	close(start)
-	wg.Wait()
+	finished := make(chan struct{})
+	go func() { wg.Wait(); close(finished) }()
+	select {
+	case <-finished:
+	case <-time.After(vpC12Watchdog + time.Duration(len(cs.reqs))*time.Second):
+		return nil // some request never returned
+	}
 	var results []vpC12Result
 	for _, o := range out {
 		results = append(results, o...)
@@ -463,6 +500,9 @@ func TestVP_C12_race_goroutines(t *testing.T) {
 	rapid.Check(t, func(t *rapid.T) {
 		cs := vpC12Gen(t, 16)
 		results := vpC12RunConcurrent(cs)
+		if results == nil && len(cs.reqs) > 0 {
+			t.Fatalf("a request on the shared nonce never returned (%d requests on %d goroutines)", len(cs.reqs), cs.workers)
+		}
 		if len(results) != len(cs.reqs) {
 			t.Fatalf("lost results: %d of %d", len(results), len(cs.reqs))
 		}
